@@ -223,7 +223,7 @@ func GenF32Bits(t *rapid.T, finiteOnly bool) uint32 {
 	}
 }
 
-var strAlphabet = []string{"a", "b", "Z", "0", " ", "\"", "\\", "/", "\n", "\t", "\x00", "\x1f", "\x7f", "é", "ß", "中", "\u2028", "\u2029", "😀", "𝄞", "<", ">", "&", "'", "\r", "\b", "\f"}
+var strAlphabet = []string{"a", "b", "Z", "0", " ", "\"", "\\", "/", "\n", "\t", "\x00", "\x1f", "\x7f", "é", "ß", "中", "\u2028", "\u2029", "😀", "𝄞", "<", ">", "&", "'", "\r", "\b", "\f", "\x01", "\ufffd", "\u00a0", "\u0080", "\ufeff", "\U0010ffff", "\ud7ff", "\ue000"}
 
 // GenUTF8 draws a valid UTF-8 string over an escape-relevant alphabet with length classes.
 func GenUTF8(t *rapid.T) string {
